@@ -268,7 +268,7 @@ def project(tokens):
     out = []
     bad = []
     for t in tokens:
-        if t in ("ER", "FP", "-") or t.startswith(("CR:", "cb:", "r:")):
+        if t in ("ER", "FP", "-", "dead") or t.startswith(("CR:", "cb:", "r:")):
             continue
         if t == "CL":
             out.append(("CL",))
@@ -453,10 +453,6 @@ def frames_case(family, frames, cbset="daemon", bufsize=512, reader="stub", real
     for data, o in frames:
         o = dict(o)
         cb = o.get("cb", "ok")
-        if real_utf8 is not None and "utf8" not in o:
-            v = real_utf8(data)
-            if v is not None:
-                o["utf8"] = v
         if not ref.open:
             break
         e = ref.feed(data, cb)
@@ -745,7 +741,6 @@ def gen_handshakes(r, n_random):
                   ("/api/jet/?x=1", True), ("http://host/api/jet/", True), ("*", False), ("/api/Jet/", False)):
         add("target " + t, ok, target=t)
     add("extensions offered (ignored at level 0)", True, hdrs=BASE_HDRS + [("Sec-WebSocket-Extensions", "permessage-deflate; client_max_window_bits")])
-    add("garbage header line", False, hdrs=[("Host", "x"), ("bad header line without colon", "")][:1] + BASE_HDRS)
     out.append((b"GET /api/jet/ HTTP/1.1\r\nHost: x\r\nno colon here\r\n" + request()[len(b"GET /api/jet/ HTTP/1.1\r\n"):], 0, False, None, "line without colon"))
     out.append((b"\r\n" + request(), 0, True, None, "leading empty line"))
     out.append((request() + enc_frame(9, b"after-upgrade"), 0, True, None, "ping right behind the request"))
@@ -853,9 +848,8 @@ def run_handshakes(binp, hs, out, stats, reader="stub"):
         mact = [t for t in mtoks if t not in ("upgraded", "open", "-")]
         # contract of the oracle: at most one url, before any header callback; hf/hv alternate; hc last
         names = [e.split(":")[0] for e in ev if e not in ("ln", "perr", "toolong")]
-        contract = names.count("url") <= 1 and (not names or names[0] == "url" or "url" not in names) and \
-            all(not (a == "hv" and b == "hv" and False) for a, b in zip(names, names[1:])) and \
-            ("hc" not in names or names[-1] == "hc")
+        contract = names.count("url") <= 1 and (not names or names[0] == "url") and \
+            ("hc" not in names or names[-1] == "hc") and names.count("hc") <= 1
         fails = []
         if not contract:
             fails.append("http-parser callback contract broken: %s" % names)
@@ -869,7 +863,7 @@ def run_handshakes(binp, hs, out, stats, reader="stub"):
         cut = act
         if is101:
             cut = act[:act.index(w[0]) + 1]
-        differ = cut != mact[:len(cut)] or (is101 and mstate != "upgraded") or (not is101 and mstate == "upgraded")
+        differ = cut != mact or (is101 and mstate != "upgraded") or (not is101 and mstate == "upgraded")
         if valid is True:
             stats["evaluations"] += 1
             if not is101:
